@@ -718,6 +718,9 @@ def _bytesio_method(ip, loc, c, name, args, kw):
             take = avail
         else:
             nn = lift(args[0], 'int').e
+            if not st.merge and not z3.is_int_value(simp(nn)):
+                if st.branch(nn >= (1 << 63), "read size does not fit a machine word"):
+                    ip.raise_(OverflowError, "cannot fit 'int' into an index-sized integer")
             take = z3.If(nn < 0, avail, z3.If(nn <= avail, nn, avail))
         take = simp(take)
         r = SV(simp(z3.SubSeq(d.e, pos, take)), 'bytes')
